@@ -491,8 +491,8 @@ impl Scenario for RlScenario {
     }
     fn cases(&self, tier: Tier) -> u64 {
         match tier {
-            Tier::Quick => 9_000,
-            Tier::Thorough => 150_000,
+            Tier::Quick => 90_000,
+            Tier::Thorough => 1_500_000,
         }
     }
     fn run_case(&self, case_seed: u64, tier: Tier) -> CaseRecord {
